@@ -174,6 +174,10 @@ pub fn towers(d: usize) -> Vec<R> {
             for _ in 0..d {
                 t = mk(t);
             }
+            if d >= 15 {
+                // the tower as an element of an unordered container (which hashes it)
+                out.push(R::node(Tag::SetExt, vec![t.clone(), other.clone()]));
+            }
             out.push(t);
         }
     }
@@ -260,6 +264,27 @@ pub fn class_names() -> Vec<String> {
         v.push(format!("a{c}"));
         v.push(format!("a{c}b"));
         v.push(format!("{c}{c}"));
+    }
+    // truncation aliases: every ASCII keyword of the ASCII vocabulary re-spelled with letters whose
+    // code points equal the keyword's characters modulo 2^8 (Latin Extended-A: '-' -> U+012D,
+    // '>' -> U+013E, ...) and modulo 2^16 (Linear B: U+1002D ...), wherever those are identifier
+    // characters - a comparison done on truncated code units takes them for the keyword
+    {
+        let f = crate::fmts::ascii();
+        let ident = |c: char| c.is_alphanumeric() || c == '_' || c == '-' || c > '\u{1f2ff}';
+        for kw in crate::strings::keywords(&f) {
+            if !kw.is_ascii() {
+                continue;
+            }
+            for off in [0x100u32, 0x10000] {
+                let alias: Option<String> = kw.chars().map(|c| char::from_u32(c as u32 + off).filter(|a| ident(*a))).collect();
+                if let Some(a) = alias {
+                    v.push(format!("a{a}b"));
+                    v.push(format!("{a}b"));
+                    v.push(format!("a{a}"));
+                }
+            }
+        }
     }
     // names that look like literals of other types (numbers in several notations, keywords)
     for n in ["7", "07", "007", "00", "10", "1e3", "1E3", "0x10", "0b1", "1_0", "inf", "NaN", "nan", "infinity", "true", "null", "None", "１"] {
